@@ -92,16 +92,31 @@ theorem c07_dumpraw_agrees (c : RCfg) (hq : Quiet c) (hnl : c.noLibcall = false)
   rw [runSteps_init, ← run_snd, specA_calls c hq hnl _ 0 (initSet c) hg.scSet hg.en hg.ds]
   rfl
 
-/-- with --no-libcall the commands differ (finding S8): a user function called from a PLT
-    function — a callback — under `-D 2 --no-libcall`: script (and replay --no-merge) drop the PLT
-    record before the filter sees it and show the callback; replay, report, graph and dump let
-    the PLT function use up a depth level and do not. -/
+/-- finding F-C07-NOLIBCALL, the code before its repair (`pltFixed := false`): a user function
+    called from a PLT function (a callback) under `-D 2 --no-libcall`: script (and replay
+    --no-merge) dropped the PLT record before the filters and showed the callback; replay, report,
+    graph and dump let the PLT function use up a depth level and did not. -/
 theorem c07_nolibcall_disagree_witness :
-    cmdOut { depthOpt := 2, noLibcall := true, plt := fun f => f == 1 } .script
+    cmdOut { depthOpt := 2, noLibcall := true, pltFixed := false, plt := fun f => f == 1 } .script
         (evCalls 0 (.cons (.node 0 10 50 (.cons (.node 1 20 40 (.cons (.node 2 25 30 .nil) .nil)) .nil)) .nil)) ≠
-    cmdOut { depthOpt := 2, noLibcall := true, plt := fun f => f == 1 } .report
+    cmdOut { depthOpt := 2, noLibcall := true, pltFixed := false, plt := fun f => f == 1 } .report
         (evCalls 0 (.cons (.node 0 10 50 (.cons (.node 1 20 40 (.cons (.node 2 25 30 .nil) .nil)) .nil)) .nil)) := by
   decide
+
+/-- after the repair (`pltFixed = true`), for every option set *with* --no-libcall, every PLT
+    marking and every record stream: script selects the same calls (time, type, function) as
+    report / graph / dump; only the display depth may differ (a hidden library call does not
+    indent what it calls in script). -/
+theorem c07_nolibcall_fixed_agree (c : RCfg) (hfix : c.pltFixed = true) (rs : List Rec) :
+    eraseD (cmdOut c .script rs) = eraseD (cmdOut c .report rs) :=
+  feq_run c hfix (lookahead c rs) (FS.init c) (FS.init c) (feq_refl _)
+
+/-- … and on the witness input all five commands now agree -/
+theorem c07_nolibcall_fixed_witness :
+    ∀ cmd : Cmd, eraseD (cmdOut { depthOpt := 2, noLibcall := true, plt := fun f => f == 1 } cmd
+        (evCalls 0 (.cons (.node 0 10 50 (.cons (.node 1 20 40 (.cons (.node 2 25 30 .nil) .nil)) .nil)) .nil))) =
+      [{ time := 10, type := 0, depth := 0, addr := 0 }, { time := 50, type := 1, depth := 0, addr := 0 }] := by
+  intro cmd; cases cmd <;> decide
 
 /-- **MAIN — record time = replay time, -F / -N / -D.**  For every table of -F / -N entries,
     every -D, both hook families (-pg and -mfentry with the repair of F4, and
